@@ -780,3 +780,54 @@ def r_memo_new(ctx):
                            "`%s` is computed once and returned from the attribute afterwards; nothing on the solve path refreshes it, so after a re-solve "
                            "the method answers with the result of an earlier solve" % a, loc(fn, fn))
     ctx.count("memo patterns", n)
+
+
+# ---------------------------------------------------------------------------------------------------
+# R-POSTSOLVE: what the solve root calls on the model after the solve assigns values and reads, nothing else
+# ---------------------------------------------------------------------------------------------------
+def r_postsolve(ctx):
+    """The methods of the problem object that the solve root calls (evaluation of the leaves, reconstruction of the certificate, eigenvalue
+    diagnostics) only rebind `_value`-like fields and locals: no container of the model (a list attribute of the problem, of a function, of a
+    class) grows or is edited in place there -- directly or through a local name bound to it -- otherwise every solve leaves the model larger."""
+    repo = ctx.repo
+    root = common.solve_root(repo)
+    pep = common.pep_class(repo)
+    n = 0
+    for c in ast.walk(root):
+        if not (isinstance(c, ast.Call) and isinstance(c.func, ast.Attribute) and dotted(c.func.value) == "self"):
+            continue
+        m = pep.find_method(c.func.attr)
+        if m is None or m is root:
+            continue
+        n += 1
+        bad = []
+        # locals that are another name of a container attribute
+        aliases = {}
+        for s0 in flow.stmts_of(m, ast.Assign):
+            if len(s0.targets) == 1 and isinstance(s0.targets[0], ast.Name) and isinstance(s0.value, ast.Attribute) and s0.value.attr.startswith("list_of"):
+                aliases[s0.targets[0].id] = src(s0.value)
+        for node in ast.walk(m):
+            recv = None
+            if isinstance(node, ast.Call) and isinstance(node.func, ast.Attribute) and node.func.attr in effects.CONTAINER_MUTATORS:
+                recv = node.func.value
+            elif isinstance(node, ast.AugAssign):
+                recv = node.target
+            elif isinstance(node, ast.Assign):
+                for t in node.targets:
+                    if isinstance(t, ast.Subscript):
+                        recv = t.value
+            if recv is None:
+                continue
+            text = None
+            if isinstance(recv, ast.Attribute) and recv.attr.startswith("list_of"):
+                text = src(recv)
+            elif isinstance(recv, ast.Name) and recv.id in aliases:
+                text = "%s (= %s)" % (recv.id, aliases[recv.id])
+            if text:
+                bad.append((node, text))
+        ctx.ob("R-POSTSOLVE", "PEP.%s::edits no container of the model" % m.name, not bad,
+               "only values are assigned" if not bad else
+               "`%s` edits `%s` in place: the model grows at every solve (and what is added is sent again by the next one)"
+               % (norm_stmt(common.stmt_of(bad[0][0]))[:70], bad[0][1]), loc(m, bad[0][0] if bad else m))
+    ctx.count("post-solve methods of the problem object", n)
+    return n
